@@ -16,10 +16,14 @@
 package main
 
 import (
+	"bytes"
+	"crypto/sha256"
+	"encoding/hex"
 	"flag"
 	"fmt"
 	"go/ast"
 	"go/parser"
+	"go/printer"
 	"go/token"
 	"os"
 	"path/filepath"
@@ -201,6 +205,7 @@ func main() {
 	}
 	sort.Slice(fns, func(i, j int) bool { return fns[i].id() < fns[j].id() })
 	seenFn := map[string]bool{}
+	fingerprint := map[string]string{} // function id -> hash of its comment-free, gofmt-normalised declaration
 	for _, f := range fns {
 		if seenFn[f.id()] {
 			errs = append(errs, "duplicate function id "+f.id())
@@ -209,6 +214,15 @@ func main() {
 		seenFn[f.id()] = true
 		count := map[string]int{}
 		add := func(kind string) {
+			if _, ok := fingerprint[f.id()]; !ok {
+				var buf bytes.Buffer
+				// the files are parsed without comments, so the printed declaration is whitespace- and comment-normalised
+				if err := printer.Fprint(&buf, token.NewFileSet(), f.decl); err != nil {
+					errs = append(errs, "print "+f.id()+": "+err.Error())
+				}
+				h := sha256.Sum256(buf.Bytes())
+				fingerprint[f.id()] = hex.EncodeToString(h[:8])
+			}
 			sites = append(sites, site{f.file, f.id(), fmt.Sprintf("%s#%s#%d", f.id(), kind, count[kind]), kind, count[kind]})
 			count[kind]++
 		}
@@ -367,6 +381,77 @@ func main() {
 	if !foundEnd {
 		errs = append(errs, "x/spending/keeper.Keeper.EndBlocker not found")
 	}
+	// further flags read from the tree (true = the unguarded code of the pinned tree)
+	byID := map[string]*fn{}
+	for _, f := range all {
+		byID[f.id()] = f
+	}
+	has := func(id string, pred func(n ast.Node) bool) bool {
+		f, ok := byID[id]
+		if !ok {
+			errs = append(errs, id+" not found")
+			return false
+		}
+		found := false
+		ast.Inspect(f.decl.Body, func(n ast.Node) bool {
+			if n != nil && pred(n) {
+				found = true
+			}
+			return !found
+		})
+		return found
+	}
+	callNamed := func(n ast.Node, name string) *ast.CallExpr {
+		c, ok := n.(*ast.CallExpr)
+		if !ok {
+			return nil
+		}
+		switch fu := c.Fun.(type) {
+		case *ast.Ident:
+			if fu.Name == name {
+				return c
+			}
+		case *ast.SelectorExpr:
+			if fu.Sel.Name == name {
+				return c
+			}
+		}
+		return nil
+	}
+	quorumPanic := func(n ast.Node) bool { // panic(... "Invalid quorum ..." ...)
+		c := callNamed(n, "panic")
+		if c == nil {
+			return false
+		}
+		lit := false
+		ast.Inspect(c, func(m ast.Node) bool {
+			if b, ok := m.(*ast.BasicLit); ok && b.Kind == token.STRING && strings.Contains(b.Value, "Invalid quorum") {
+				lit = true
+			}
+			return true
+		})
+		return lit
+	}
+	subCall := func(n ast.Node) bool { // x.Sub(...)   (Coins.Sub panics below zero; SafeSub does not)
+		c := callNamed(n, "Sub")
+		if c == nil {
+			return false
+		}
+		_, isSel := c.Fun.(*ast.SelectorExpr)
+		return isSel
+	}
+	flagProposalQuorum := has("x/gov.processProposal", quorumPanic)
+	flagPollQuorum := has("x/gov.processPoll", quorumPanic)
+	flagWithdrawSub := has("x/spending.ApplySpendingPoolWithdrawProposalHandler.Apply", subCall)
+	flagClaimSub := has("x/spending/keeper.Keeper.ClaimSpendingPool", subCall)
+	flagUbiCast := has("x/ubi/keeper.Keeper.ProcessUBIRecord", func(n ast.Node) bool { // int64(record.Amount)
+		c := callNamed(n, "int64")
+		if c == nil || len(c.Args) != 1 {
+			return false
+		}
+		sel, ok := c.Args[0].(*ast.SelectorExpr)
+		return ok && sel.Sel.Name == "Amount"
+	})
 
 	var sb strings.Builder
 	sb.WriteString("(* GENERATED by harness/cmd/gen_panics from the working tree -- do not edit. *)\n")
@@ -381,6 +466,25 @@ func main() {
 	}
 	sb.WriteString("].\n")
 	sb.WriteString(fmt.Sprintf("(* x/spending/keeper EndBlocker: every Quo divisor d is preceded by `if !d.IsPositive() { continue }` *)\nDefinition spend_endblock_guarded : bool := %v.\n", guarded))
+	sb.WriteString(fmt.Sprintf("(* gov processProposal / processPoll turn an IsQuorum error into panic(\"Invalid quorum ...\") *)\nDefinition gov_proposal_quorum_error_panics : bool := %v.\nDefinition gov_poll_quorum_error_panics : bool := %v.\n", flagProposalQuorum, flagPollQuorum))
+	sb.WriteString(fmt.Sprintf("(* SpendingPoolWithdraw.Apply / ClaimSpendingPool reduce the pool balance with the panicking Coins.Sub *)\nDefinition withdraw_sub_unchecked : bool := %v.\nDefinition claim_sub_unchecked : bool := %v.\n", flagWithdrawSub, flagClaimSub))
+	sb.WriteString(fmt.Sprintf("(* ProcessUBIRecord converts the uint64 amount with int64(record.Amount) *)\nDefinition ubi_amount_cast_int64 : bool := %v.\n", flagUbiCast))
+	sb.WriteString("(* fingerprint (sha256/64 of the comment-free, gofmt-printed declaration) of every function that contains a site *)\nDefinition fn_fingerprints : list (string * string) := [\n")
+	{
+		var ids []string
+		for id := range fingerprint {
+			ids = append(ids, id)
+		}
+		sort.Strings(ids)
+		for i, id := range ids {
+			sep := ";"
+			if i == len(ids)-1 {
+				sep = ""
+			}
+			sb.WriteString("  (" + coqStr(id) + ", " + coqStr(fingerprint[id]) + ")" + sep + "\n")
+		}
+	}
+	sb.WriteString("].\n")
 	sb.WriteString("Definition roots : list string := [\n")
 	for i, r := range roots {
 		sep := ";"
